@@ -74,6 +74,10 @@ CLAIMED["C12"] = dict(cat="model_checking", ref="7 C12", note=CLI_NOTE + "; Clos
   text="ClientLife.tla models the client's goroutines (run, primary downloader, stream downloader, stream processor, track processor), their rendezvous and the ctx.Done alternative of every blocking step, the routine pool and the single result; TLC checks exactly-one value, no goroutine left, no callback afterwards, error surfaced and termination (liveness) for every Close point x fault x OnTracks error, and refutes the weakened variants (start hand-off without ctx, error path without join); every scenario of the model is run on the real Client (fast and slow callbacks) and TLC validates the observations (ClientRun.tla); real outcomes are compared with the model's outcome sets",
   technique="TLA+ model + TLC safety/liveness; model scenarios (Close point x fault) executed on the real Client; TLC trace validation")
 
+CLAIMED["C13"] = dict(cat="fault_enumeration", ref="7 C13", note=CLI_NOTE + "; structure-aware content faults, not coverage-guided fuzzing of arbitrary bytes (DESIGN section 9); a client still pacing a sample (<= 10 s by design) at the end of the budget is not counted as wedged",
+  text="a catalogue of content faults (generic truncation / garbage / duplication; playlist faults: huge or negative numbers, missing URIs, wrong playlist kind, bad byte ranges, unknown codecs, missing group; init faults: codecs without decoder as extra / leading / all tracks, time scale 0, extra / missing / duplicate / too many tracks; segment faults: no leading-track data, undeclared traf, empty trun, zero / huge durations, base times and offsets, other container, unsupported MPEG-TS codecs, missing PMT, 20 s jumps) is applied at every response position of six stream layouts (MPEG-TS, fMP4 with permuted tracks, renditions in both containers, Low-Latency), with and without a later Close; a crash of the process, no outcome within the budget while nothing is being paced, a leaked goroutine or a second value are violations, judged by TLC on the recorded runs (ClientRun.tla)",
+  technique="model-driven fault enumeration on the real Client; TLA+ monitor (ClientRun.tla) checked by TLC on the recorded runs; process-level crash detection")
+
 PENDING = "check not built yet in this session (planned, see DESIGN.md section 7); will be claimed once its TLA+ model and conformance harness are committed"
 
 
